@@ -64,12 +64,17 @@ POLICIES = ("rtb", "low", "high", "rr")
 ENV_KINDS = ("crash", "fault", "page", "deliver", "early")
 
 
+STALL_BASE = 500   # option codes 500+k: the running thread is descheduled for stall_menu[k] virtual seconds
+
+
 def kind_of(code: int) -> str:
     """Kind of a choice option code: thread ids >= 0, timer = -(id+1), env = 1000*(k+1)+opt."""
     if code < 0:
         return "timer"
-    if code < 1000:
+    if code < STALL_BASE:
         return "thread"
+    if code < 1000:
+        return "stall"
     return ENV_KINDS[code // 1000 - 1]
 
 
@@ -119,7 +124,7 @@ class Exec:
 
     def __init__(self, prefix=(), policy="rtb", start=1_700_000_000.0, horizon=300.0,
                  max_steps=400_000, timer_choices=False, line_files=None, expect=None,
-                 random_value=0.5, chooser=None, tick0=0, grace=0.0):
+                 random_value=0.5, chooser=None, tick0=0, grace=0.0, stall_menu=None, stall_threads=None):
         Exec.epoch_counter += 1
         self.epoch = Exec.epoch_counter
         self.threads: list[VT] = []
@@ -129,6 +134,8 @@ class Exec:
         self.chooser = chooser if chooser is not None else Chooser(prefix, expect)
         self.trace = self.chooser.trace  # shared list
         self.policy = policy
+        self.stall_menu = list(stall_menu or [])
+        self.stall_threads = tuple(stall_threads) if stall_threads else None   # name prefixes; None = every thread
         self.steps = 0
         self.max_steps = max_steps
         self.killed = False
@@ -312,10 +319,16 @@ class Exec:
             if timed:
                 timer_t = min(timed, key=lambda x: (x.deadline, x.id))
                 codes.append(-(timer_t.id + 1))
+        if self.stall_menu and me is not None and me.state == RUN and me in en and (
+                self.stall_threads is None or me.name.startswith(self.stall_threads)):
+            # the running thread loses the CPU for a while at this point (everything else goes on)
+            codes.extend(STALL_BASE + k for k in range(len(self.stall_menu)))
         if len(codes) == 1:
             return opts[0]
         ch = self.chooser.pick(codes)
         code = codes[ch]
+        if code >= STALL_BASE:
+            return ("stall", self.stall_menu[code - STALL_BASE])
         if code < 0:
             t = timer_t
             if t.deadline > self.now:
@@ -350,6 +363,9 @@ class Exec:
         except InternalError as e:
             self._internal(e)
             raise Killed() from None
+        if isinstance(nxt, tuple):
+            self.block(lambda: False, nxt[1], on=("stall", nxt[1]))
+            return
         self._switch(me, nxt)
 
     def block(self, pred, timeout=None, on=None) -> bool:
